@@ -15,6 +15,7 @@ import (
 
 	"github.com/tdewolff/parse/v2/buffer"
 
+	"verif/harness/internal/reg"
 	"verif/harness/internal/tr"
 )
 
@@ -221,7 +222,9 @@ func (x *runner) do(o op) (ev tr.E, res int) {
 		res = len(s)
 		same := x.absPos <= len(x.data) && x.absStart <= x.absPos && bytes.Equal(s, x.data[x.absStart:x.absPos])
 		ev["same"] = same
-		if len(s) > 0 && (o.Op == "Shift" || x.trackLexeme) {
+		watch := len(s) > 0 && (o.Op == "Shift" || x.trackLexeme)
+		ev["watch"] = watch
+		if watch {
 			x.lives = append(x.lives, live{x.nid, s, append([]byte{}, s...), x.absPos})
 		}
 		if o.Op == "Shift" {
@@ -272,6 +275,7 @@ func Replay(args []string) {
 	fs := flag.NewFlagSet("stream replay", flag.ExitOnError)
 	cases := fs.String("cases", "", "ndjson scenarios")
 	out := fs.String("out", "", "trace file")
+	sample := fs.Int("sample", 200, "keep the trace of every n-th execution that agrees with the model (all others that differ are kept)")
 	fs.Parse(args)
 	w := tr.NewWriter(*out)
 	sum := summary{Suite: "stream", Mode: "replay", Hooks: hooksOn}
@@ -305,6 +309,9 @@ func Replay(args []string) {
 			if i < len(sc.Exp) && sc.Exp[i] != -1 && sc.Exp[i] != res {
 				mism = true
 			}
+			if b, _ := ev["broken"].([]int); len(b) > 0 || ev["same"] == false {
+				mism = true // the model predicts that no watched slice changes
+			}
 		}
 		if mism {
 			sum.Mismatches++
@@ -318,7 +325,7 @@ func Replay(args []string) {
 		if len(sum.Samples) < 2 {
 			sum.Samples = append(sum.Samples, sc)
 		}
-		w.End(true)
+		w.End(mism || tid%*sample == 0)
 	})
 	if err != nil {
 		fmt.Fprintln(os.Stderr, "replay:", err)
@@ -569,4 +576,10 @@ func Rerun(args []string) {
 	w.End(true)
 	w.Close()
 	json.NewEncoder(os.Stdout).Encode(summary{Suite: "stream", Mode: "rerun", Executions: 1, Traces: 1, Events: w.Events})
+}
+
+func init() {
+	reg.Register("stream", "replay", Replay)
+	reg.Register("stream", "record", Record)
+	reg.Register("stream", "rerun", Rerun)
 }
